@@ -10,7 +10,7 @@ from mpsa.loader import dotted, norm_text
 from mpsa.match import Scope, has_timeout, is_name, is_none, method_of, walk_shallow_func
 from mpsa.report import Checker
 
-from .c09 import check_deadline_shape, check_size_bound
+from .c09 import check_deadline_shape, check_size_bound, check_wait_config
 from .common import STREAMER, build_cfg, make_fallible
 
 
@@ -42,6 +42,7 @@ def run(ck: Checker):
     f = ck.repo.func(STREAMER, 'EagerBatcher.__iter__')
     check_size_bound(ck, 'C19-2', f, 'self._batch_size')
     check_deadline_shape(ck, 'C19-3', f, queue='self._instream', wait_attr='self._batch_wait_time')
+    check_wait_config(ck, 'C19-3', ck.repo.func(STREAMER, 'EagerBatcher.__init__'), param='batch_wait_time', attr='self._batch_wait_time')
     check_batch_ownership(ck, 'C19-4', f)
     # ------------------------------------------------------------------ C19-1
     sc = Scope(f)
